@@ -3265,6 +3265,39 @@ func boundsProven(prog *core.Program, fn *ssa.Function, in ssa.Instruction) bool
 	return m[in]
 }
 
+// boundsLenAtLeast: the bounds engine's verdict on len(v) >= n just before instruction `at` of fn (guards, helper
+// summaries such as "a non-nil result has n bytes").
+func boundsLenAtLeast(prog *core.Program, fn *ssa.Function, at ssa.Instruction, v ssa.Value, n int64) bool {
+	val, _ := sharedBoundsByProg.LoadOrStore(prog, &sharedBounds{res: map[*ssa.Function]map[ssa.Instruction]bool{}})
+	sb := val.(*sharedBounds)
+	sb.mu.Lock()
+	defer sb.mu.Unlock()
+	if sb.e == nil {
+		r := core.NewRun("", "quick", 0, prog)
+		sb.e = &boundsEngine{r: r, glen: globalLens(r), done: map[*ssa.Function]*boundsFn{}, busy: map[*ssa.Function]bool{}, summs: map[*ssa.Function]*boundsSummary{}}
+	}
+	b := sb.e.get(fn)
+	if b == nil || b.unconverged || at.Block() == nil {
+		return false
+	}
+	d0 := b.in[at.Block()]
+	if d0 == nil {
+		return false
+	}
+	d := d0.clone()
+	for _, in := range at.Block().Instrs {
+		if in == at {
+			break
+		}
+		b.transfer(d, in)
+	}
+	if d.bottom {
+		return true // unreachable
+	}
+	lv := b.lenVar(v)
+	return d.get(0, lv) <= -n // 0 - len(v) <= -n
+}
+
 // callsWalk: a package-level function of js that calls js.Walk (a walk helper).
 func callsWalk(fn *ssa.Function) bool {
 	for _, b := range fn.Blocks {
